@@ -2,7 +2,9 @@
    semantics of the current code, the usability theorem for every schedule, progress, the
    refutation of the pre-fix wrapper and the boundary case of a responder that refuses. *)
 From Coq Require Import List NArith Bool Arith Lia.
-From MevVerif Require Import lib.Bytes gen.Generated model.ConnectRace.
+From Coq Require String.
+Import String.StringSyntax.
+From MevVerif Require Import lib.Bytes proofs.Bytes_proofs gen.Generated model.ConnectRace check.Check_C20.
 Import ListNotations.
 Open Scope N_scope.
 
@@ -876,3 +878,95 @@ Lemma C20_refusing_responder_stmt : forall (c : cfg) (sched : list who) (id : id
   registered (run deployed c sched) = None /\
   Forall (fun s => forall j, s <> WHandled j) (wr (run deployed c sched)).
 Proof. exact inconsistent_responder_refuses_deployed. Qed.
+
+(* ---- the boolean checker of check/Check_C20.v reflects the theorem ----------------------------- *)
+Lemma unle_inj : forall a b : bytes,
+  length a = length b -> wf_bytes a -> wf_bytes b -> unle a = unle b -> a = b.
+Proof.
+  induction a as [|x a IH]; intros [|y b] Hl Ha Hb E; cbn [unle length] in *; try discriminate; auto.
+  inversion Ha as [|? ? Hx Ha']; inversion Hb as [|? ? Hy Hb']; subst.
+  cbv beta in *. assert (x = y /\ unle a = unle b) as (-> & E') by lia.
+  f_equal. apply IH; auto.
+Qed.
+
+Lemma unbe_inj (a b : bytes) :
+  length a = length b -> wf_bytes a -> wf_bytes b -> unbe a = unbe b -> a = b.
+Proof.
+  unfold unbe. intros Hl Ha Hb E.
+  assert (rev a = rev b).
+  { apply unle_inj; auto.
+    - rewrite !rev_length; auto.
+    - unfold wf_bytes in *. apply Forall_rev; auto.
+    - unfold wf_bytes in *. apply Forall_rev; auto. }
+  rewrite <- (rev_involutive a), <- (rev_involutive b). congruence.
+Qed.
+
+Definition addr_shape (b : bytes) : Prop := length b = 20%nat /\ wf_bytes b.
+Definition obs_shape (o : sres) : Prop :=
+  match o with SHandled b _ => addr_shape b | _ => True end.
+
+Lemma fold_violation_none c l :
+  Forall (fun o => stream_violation c o = None) l ->
+  fold_left (fun acc o => match acc with Some k => Some k | None => stream_violation c o end) l None = None.
+Proof.
+  induction l as [|o l IH]; intros H; cbn; auto. inversion H; subst.
+  rewrite H2. apply IH; auto.
+Qed.
+
+(* If an observation is one the model produces under some schedule that has run every opened
+   stream to its end, and it lies in the claim (Connect succeeded, responder self-consistent),
+   then the checker finds no violation in it: what the checker demands of the implementation
+   is what C20_usable proves of the model. *)
+Theorem checker_reflects (c : case) (sched : list who) :
+  in_claim c = true ->
+  explains c sched = true ->
+  forallb finished (wr (run deployed (cfg_of c) sched)) = true ->
+  addr_shape (i_addr c) -> Forall obs_shape (outcomes c) ->
+  violation c = None.
+Proof.
+  unfold explains, violation, in_claim. intros Hc He Hf Hi Ho.
+  rewrite Hc. apply andb_prop in Hc. destruct Hc as (Hok & Hks).
+  apply andb_prop in He. destruct He as (He & _). apply andb_prop in He. destruct He as (Hret & Hall).
+  set (w := run deployed (cfg_of c) sched) in *.
+  assert (Hcons : ks_addr (rsp (cfg_of c)) = pid_addr (rsp (cfg_of c))).
+  { unfold cfg_of; cbn. rewrite Hks. reflexivity. }
+  assert (Hr : exists id, returned w = Some id).
+  { unfold ret_agrees in Hret. destruct (returned w) as [id|]; eauto.
+    rewrite Hok in Hret. discriminate. }
+  destruct Hr as (id & Hr).
+  destruct (C20_usable_stmt (cfg_of c) sched id Hcons Hr) as (_ & Hg). fold w in Hg.
+  apply fold_violation_none.
+  revert Hall Hf Hg Ho. generalize (wr w) as l. generalize (outcomes c) as m.
+  induction m as [|o m IH]; intros [|s l] Hall Hf Hg Ho; cbn in *; try discriminate; constructor.
+  - apply andb_prop in Hall. destruct Hall as (Hs & _).
+    apply andb_prop in Hf. destruct Hf as (Hfin & _).
+    inversion Hg as [|? ? (G1 & G2 & G3) _]; subst. inversion Ho as [|? ? Hsh _]; subst.
+    destruct s as [| | |(a, t)| |]; cbn in Hfin; try discriminate; try congruence.
+    destruct o as [b t'| |]; cbn in Hs; try discriminate.
+    apply andb_prop in Hs. destruct Hs as (Ea & Et).
+    apply N.eqb_eq in Ea. apply N.eqb_eq in Et. subst.
+    destruct (G3 _ eq_refl) as (Ej & _). unfold cfg_of in Ej; cbn in Ej.
+    injection Ej as Ea Et. cbn. rewrite Et, N.eqb_refl.
+    destruct Hi as (Hl1 & Hw1). destruct Hsh as (Hl2 & Hw2).
+    assert (b = i_addr c) as -> by (apply unbe_inj; auto; congruence).
+    rewrite bytes_eqb_refl. reflexivity.
+  - apply andb_prop in Hall. apply andb_prop in Hf.
+    inversion Hg; subst. inversion Ho; subst. apply (IH l); tauto.
+Qed.
+
+Definition ex_case (o : list sres) (e : N) : case :=
+  {| id := 0; klass := 0; nstreams := 1; ninit := 1;
+     i_addr := x "1954c423a424456a2b2b319270f81eea62ecda3e"; i_type := 2; i_staked := true;
+     r_addr := x "3a1f92eeedde6b66f1424b553339f32fd4afd177"; r_type := 1; r_staked := true;
+     r_ks_ok := true; connect_ok := true;
+     ret_addr := x "3a1f92eeedde6b66f1424b553339f32fd4afd177"; ret_type := 1;
+     early := e; reg_at_gate := false; outcomes := o; ga := 1 |}.
+
+(* an observation of the current code and one of the code before the repair *)
+Example checker_examples :
+  let good := ex_case [SHandled (x "1954c423a424456a2b2b319270f81eea62ecda3e") 2] 0 in
+  let bad := ex_case [SRefused] 1 in
+  explains good (sched_open_before_release 1) = true /\ violation good = None /\
+  mismatches [good] = [] /\
+  violation bad = Some (String.append "reset-after-" "connect") /\ mismatches [bad] = [0].
+Proof. repeat split; vm_compute; reflexivity. Qed.
